@@ -6,7 +6,8 @@ PID = "C05"
 
 def run(rep):
     H.run_h1(rep, PID, ["MC_C04_quick.cfg"], ["MC_C04_thorough.cfg"], [H.mem_family],
-             dict(allow_bad=0.1, one_byte=0.0, budget=0.5, faults=False), n_random=(20, 200), max_scripts=(50, 500))
+             dict(allow_bad=0.1, one_byte=0.0, budget=0.5, faults=False), n_random=(20, 200), max_scripts=(50, 500),
+             mem_cfgs=(["MC_Mem_quick.cfg"], ["MC_Mem_thorough.cfg"]))
     rep.assumptions += ["live heap is measured by a counting global allocator in the harness process and includes the harness's own "
                         "bookkeeping (reported per event and added to the bound)"]
 
